@@ -11,10 +11,28 @@ import random
 import core
 import c07_build as B
 from c07_obs import (open_deb, drop, pick_how, obs_has, obs_get, obs_md5, obs_scripts, obs_ctl, mutate_result,
-                     N_ACCESS, MD5_WAYS, HOWS_SHARED)
+                     N_ACCESS, MD5_WAYS, HOWS_SHARED, HOWS_FLAKY, FAULT_KINDS, FAULT_AT, AR_KINDS, AR_NAMED,
+                     obs_ar, ar_glance, obs_read_begin, obs_read_end, obs_faulted, trigger_of, forget_trigger,
+                     make_fault, classify, came_out)
 
 SPELLINGS = ["plain", "dot", "slash"]
 PARTS = ["control", "data"]
+HEADS = [0, 1, 2, 3, 7, 100, 511, 512, 1000, 4096, 8191, 8192, 8193]        # bytes read before the other steps
+
+
+def member_of(mem, w):
+    """the ar member an ArFile-level call names: the member of part w, debian-binary for 'info'"""
+    if w == "info":
+        return B.INFO
+    for name in mem:
+        k = B.part_of(name)
+        if k and k[0] == w:
+            return name
+    raise core.MachineryError("member list %r has no %s part" % (mem, w))
+
+
+def ext_of(mem, p):
+    return B.part_of(member_of(mem, p))[1]
 
 
 def fmap(x):
@@ -28,11 +46,15 @@ class Session:
         self.work, self.mems, self.hows, self.styles = work, mems, hows, styles
         self.deb = {}
         self.path = {1: None, 2: None}
+        self.hand = None        # the half-read file: [o, file object, head]
 
     def open(self, o, conc):
         """(re)write the package of object o and open it; -> 'ok' or the failure class"""
         old = self.deb.get(o)
+        if self.hand is not None and self.hand[0] == o:
+            self.drop_hand()
         if old is not None:
+            forget_trigger(old)
             try:
                 old.close()
             except Exception:
@@ -46,6 +68,63 @@ class Session:
     def part(self, o, p):
         return self.deb[o].control if p == "control" else self.deb[o].data
 
+    def drop_hand(self):
+        if self.hand is not None:
+            try:
+                self.hand[1].close()
+            except Exception:
+                pass
+        self.hand = None
+
+    def read_begin(self, o, p, path, k):
+        """-> (err, found); a file found stays half read in self.hand"""
+        err, f, head = obs_read_begin(self.part(o, p), path, k)
+        if f is not None:
+            self.hand = [o, f, head]
+        return err, f is not None
+
+    def read_end(self, fault=None):
+        """the remainder of the half-read file -> (exc, err, data); with fault = (k, kind) the caller's file
+        object is armed meanwhile: exc = what came out if the injected fault did ('' otherwise)"""
+        o, f, head = self.hand[:3]
+        self.hand = None
+        trig = trigger_of(self.deb[o]) if fault else None
+        if trig is None:
+            err, data = obs_read_end(f, head)
+            return "", err, data
+        injected = make_fault(fault[1])
+        trig.arm(fault[0], injected)
+        try:
+            rest = f.read()
+        except Exception as e:
+            fired = trig.fired
+            trig.disarm()
+            try:
+                f.close()
+            except Exception:
+                pass
+            exc = came_out(e, injected) if fired else ""
+            return exc, ("" if exc else classify(e)), None
+        trig.disarm()
+        try:
+            f.close()
+        except Exception:
+            pass
+        return "", "", (head + rest) if isinstance(rest, bytes) else None
+
+    def raw_query(self, o, q, args, enc, names):
+        """the plain call of query q (no cross-checks): what is run while the file object is armed"""
+        deb = self.deb[o]
+        if q in ("has", "get"):
+            p, sp, n = args
+            part, path = self.part(o, p), B.SPELL[sp] + names[n]
+            return (lambda: part.has_file(path)) if q == "has" else (lambda: part.get_content(path))
+        if q == "scripts":
+            return deb.scripts
+        if q == "debcontrol":
+            return deb.debcontrol
+        return lambda: deb.md5sums(encoding="utf-8")
+
     def disturber(self, o):
         other = self.deb.get(3 - o)
 
@@ -57,12 +136,17 @@ class Session:
                 self.deb[o].control.has_file("md5sums")
             except Exception:
                 pass
+            ar_glance(self.deb[o])          # DebFile is an ArFile: looking at the member table is harmless
+            if other is not None:
+                ar_glance(other)
         return disturb
 
     def close(self):
+        self.drop_hand()
         for o in (1, 2):
             d = self.deb.get(o)
             if d is not None:
+                forget_trigger(d)
                 try:
                     d.close()
                 except Exception:
@@ -85,9 +169,15 @@ def load_table(lines):
     return tab, pkgs, prts
 
 
-def gen_hist(rnd, tab, pkgs, prts, nsteps, stress=0):
+def gen_hist(rnd, tab, pkgs, prts, nsteps, stress=0, fdom=None):
     """a random history over the model's queries with the answers TLC expects; JSON-able case.
-    stress: size dimension of the concretisation (big blobs, many members, long names)"""
+    stress: size dimension of the concretisation (big blobs, many members, long names).
+    fdom (the FDOM line): where a fault of the caller's file object is specified to leave no trace, given
+    that the part's tarball is open, and what a faulted query may raise.  Steps besides the queries:
+      ["rb", o, args, k, out, g]   get_file + read(k): `out` is the get answer of the table
+      ["re", o, out, g]            the remainder: head + remainder = the blob of `out`
+      ["ar", o, kind, w]           an ArFile-level call naming the member of part w / debian-binary
+      ["fault", o, q, args, enc, out, g, k, kind, dom, exc]   query q (or "re") with the file object armed"""
     qn = sorted({k[2][2] for k in tab[(0, 0)] if k[1] == "has"})
     names = B.gen_names(rnd, set(qn) | set(B.CTRL_NAMES), long_names=bool(stress))
     concs = {}
@@ -100,13 +190,109 @@ def gen_hist(rnd, tab, pkgs, prts, nsteps, stress=0):
         mems[o] = m
         hows[o] = pick_how(rnd, 0.5)       # the two live objects are usually created in different ways
         styles[o] = "dpkg" if rnd.random() < 0.8 else "gnu"
-    if stress and not any(x in HOWS_SHARED for x in hows.values()):
+    if stress and not any(x in HOWS_SHARED + HOWS_FLAKY for x in hows.values()):
         hows[rnd.choice((1, 2))] = rnd.choice(HOWS_SHARED)
+    if fdom and rnd.random() < 0.6 and not any(x in HOWS_FLAKY for x in hows.values()):
+        hows[rnd.choice((1, 2, 2))] = rnd.choice(HOWS_FLAKY)    # half of the histories have an object that can fail
+    flaky = [o for o in (1, 2) if hows[o] in HOWS_FLAKY] if fdom else []
     queries = sorted(tab[(0, 0)])
+    gets = [q for q in queries if q[1] == "get"]
     g = [0, 0]
     ops, prev = [], None
+    opened = {1: set(), 2: set()}       # parts whose tarball an earlier successful query has opened (DebFileCache: THit)
+    hand = None                         # the half-read file: (o, p)
+
+    def part_of_query(q):
+        return q[2][0] if q[1] in ("has", "get") else "control"
+
+    def carry_on(o, p):
+        """then the ordinary history continues: right after a fault, valid calls on the same part"""
+        same = [q for q in queries if q[0] == o and q[1] in ("has", "get") and q[2][0] == p]
+        there = [q for q in same if tab[tuple(g)][q]["found"]]
+        for _ in range(rnd.choice([1, 2, 2, 3, 4])):
+            q = rnd.choice(there if there and rnd.random() < 0.8 else same)
+            if p == "control" and rnd.random() < 0.3:
+                q = (o, rnd.choice(["scripts", "md5sums"]), ())
+            ops.append(["q", o, q[1], list(q[2]), rnd.randrange(N_ACCESS), rnd.choice(MD5_WAYS), tab[tuple(g)][q], g[o - 1]])
+            opened[o].add(p)
+
+    def early_fault(o):
+        """a fault early in the life of an object: the first membership query of a part, then the file
+        object fails during the second one (another name of the same part)"""
+        if o not in flaky or rnd.random() < 0.25:
+            return
+        p = rnd.choice([x for x in PARTS if fdom["dom"][o - 1][x]] or PARTS)
+        has = [q for q in queries if q[0] == o and q[1] == "has" and q[2][0] == p]
+        there = [q for q in has if tab[tuple(g)][q]["found"]]
+        q1 = rnd.choice(there if there and rnd.random() < 0.85 else has)
+        others = [q for q in has if q[2][2] != q1[2][2]]
+        q2 = rnd.choice(others if rnd.random() < 0.85 else has)
+        ops.append(["q", o, "has", list(q1[2]), rnd.randrange(N_ACCESS), None, tab[tuple(g)][q1], g[o - 1]])
+        opened[o].add(p)
+        dom = bool(fdom["dom"][o - 1][p])
+        ops.append(["fault", o, "has", list(q2[2]), None, tab[tuple(g)][q2], g[o - 1], rnd.choice([1, 1, 1, 2, 3, 5]),
+                    rnd.choice(FAULT_KINDS), dom, fdom["exc"]])
+        if not dom:
+            ops.append(["reopen", o, g[o - 1]])
+            opened[o] = set()
+        carry_on(o, p)
+    for o in flaky:
+        early_fault(o)
     for _ in range(nsteps):
         r = rnd.random()
+        r2 = rnd.random()
+        if hand is not None and r2 < 0.45:
+            if r2 < 0.2:                # an ArFile-level look at the very member the half-read file lives in
+                ops.append(["ar", hand[0], rnd.choice(AR_NAMED + AR_KINDS), hand[1]])
+            elif r2 < 0.25:
+                ops.append(["ar", rnd.choice((1, 2)), rnd.choice(AR_KINDS), rnd.choice(PARTS + ["info"])])
+            elif r2 < 0.3 and hand[0] in flaky:
+                o, p = hand[:2]
+                dom = bool(fdom["dom"][o - 1][p]) and p in opened[o]
+                ops.append(["fault", o, "re", [], None, hand[2], hand[3], rnd.choice(FAULT_AT), rnd.choice(FAULT_KINDS),
+                            dom, fdom["exc"]])
+                hand = None
+                if not dom:
+                    ops.append(["reopen", o, g[o - 1]])
+                    opened[o] = set()
+            else:
+                ops.append(["re", hand[0], hand[2], hand[3]])
+                hand = None
+            continue
+        if fdom and r2 < 0.12:
+            ops.append(["ar", rnd.choice((1, 2)), rnd.choice(AR_KINDS), rnd.choice(PARTS + ["info"])])
+            continue
+        if fdom and hand is None and r2 < 0.24:
+            q = rnd.choice(gets)
+            if not tab[tuple(g)][q]["found"] and rnd.random() < 0.7:        # mostly files that are there
+                q = rnd.choice([x for x in gets if tab[tuple(g)][x]["found"]])
+            out = tab[tuple(g)][q]
+            ops.append(["rb", q[0], list(q[2]), rnd.choice(HEADS), out, g[q[0] - 1]])
+            if not out["err"]:
+                opened[q[0]].add(q[2][0])
+            if out["found"]:
+                hand = (q[0], q[2][0], out, g[q[0] - 1])
+                if rnd.random() < 0.4:      # head, a look at the ar member of that very part, (soon) the rest
+                    ops.append(["ar", hand[0], rnd.choice(AR_NAMED), hand[1]])
+                    if rnd.random() < 0.5:
+                        ops.append(["re", hand[0], hand[2], hand[3]])
+                        hand = None
+            continue
+        if flaky and r2 < 0.40:
+            o = rnd.choice(flaky)
+            cand = [q for q in queries if q[0] == o and part_of_query(q) in opened[o]]
+            q = rnd.choice(cand) if cand and rnd.random() < 0.85 else rnd.choice([q for q in queries if q[0] == o])
+            p = part_of_query(q)
+            dom = bool(fdom["dom"][o - 1][p]) and p in opened[o]
+            ops.append(["fault", o, q[1], list(q[2]), rnd.choice(MD5_WAYS), tab[tuple(g)][q], g[o - 1],
+                        rnd.choice(FAULT_AT), rnd.choice(FAULT_KINDS), dom, fdom["exc"]])
+            if not dom:                 # unspecified: the object is opened again (same content) before anything else
+                ops.append(["reopen", o, g[o - 1]])
+                opened[o] = set()
+                if hand is not None and hand[0] == o:
+                    hand = None
+            carry_on(o, p)
+            continue
         if prev is not None and r < 0.3:
             q = prev                                    # the same question again (other access path)
         elif r < 0.37:
@@ -116,12 +302,18 @@ def gen_hist(rnd, tab, pkgs, prts, nsteps, stress=0):
             o = rnd.choice((1, 2))
             g[o - 1] ^= 1
             ops.append(["reopen", o, g[o - 1]])
+            opened[o] = set()
+            if hand is not None and hand[0] == o:
+                hand = None
+            early_fault(o)
             continue
         elif r < 0.55:
             q = (rnd.choice((1, 2)), rnd.choice(["scripts", "md5sums", "debcontrol"]), ())
         else:
             q = rnd.choice(queries)
         prev = q
+        if not tab[tuple(g)][q]["err"] or q[1] in ("md5sums", "debcontrol"):
+            opened[q[0]].add(part_of_query(q))
         ops.append(["q", q[0], q[1], list(q[2]), rnd.randrange(N_ACCESS), rnd.choice(MD5_WAYS),
                     tab[tuple(g)][q], g[q[0] - 1]])
     return {"kind": "hist", "concs": concs, "mems": {str(k): v for k, v in mems.items()},
@@ -159,7 +351,53 @@ def run_hist(case, work, drift=None):
                 if st != "ok":
                     return "%s: package %d rewritten and opened again: %s" % (where, o, st)
                 continue
-            _, o, q, args, variant, enc, out, g = op
+            if op[0] == "ar":
+                _, o, kind, w = op
+                err = obs_ar(sess.deb[o], kind, member_of(sess.mems[o], w))
+                if err:
+                    return "%s: package %d: ArFile-level call %s(%r): %s" % (where, o, kind, member_of(sess.mems[o], w), err)
+                continue
+            if op[0] == "rb":
+                _, o, args, k, out, g = op
+                p, sp, n = args
+                path = B.SPELL[sp] + concs["%d,%d" % (o, g)].names[n]
+                err, found = sess.read_begin(o, p, path, k)
+                if err != out["err"] or found != out["found"]:
+                    return "%s: package %d %s.get_file(%r).read(%d): %s, specification says found = %s" % (
+                        where, o, p, path, k, err or ("found" if found else "absent"), out["found"])
+                continue
+            if op[0] == "re" or (op[0] == "fault" and op[2] == "re"):
+                if sess.hand is None:
+                    raise core.MachineryError("history reads the remainder of a file that was never begun")
+                o = op[1]
+                out, g = (op[2], op[3]) if op[0] == "re" else (op[5], op[6])
+                exp = concs["%d,%d" % (o, g)].blob[out["blob"]]
+                head = len(sess.hand[2])
+                exc, err, data = sess.read_end((op[7], op[8]) if op[0] == "fault" else None)
+                if exc:
+                    if exc not in op[10]:
+                        return "%s: package %d: the file object given to DebFile raised once while the rest of a file was read: %s came out" % (where, o, exc)
+                    continue
+                if op[0] == "fault" and not op[9]:
+                    continue        # outside the fault domain: unspecified (the object is opened again next)
+                if err or data != exp:
+                    return "%s: package %d: a file read in two steps (%d bytes, other calls, the rest) = %r, packed %r" % (
+                        where, o, head, err or (None if data is None else data[:80]), exp[:80])
+                continue
+            if op[0] == "fault":
+                _, o, q, args, enc, out, g, k, kind, dom, allowed = op
+                conc = concs["%d,%d" % (o, g)]
+                exc = obs_faulted(sess.deb[o], k, kind, sess.raw_query(o, q, args, enc, conc.names))
+                if exc:
+                    if exc not in allowed:
+                        return "%s: package %d: the file object given to DebFile raised %s once during %s%r: %s came out" % (
+                            where, o, kind, q, tuple(args), exc)
+                    continue
+                if not dom:
+                    continue        # (the object is opened again by the next step)
+                variant = rnd.randrange(N_ACCESS)       # the fault did not come out: the answer is the ordinary one
+            else:
+                _, o, q, args, variant, enc, out, g = op
             conc = concs["%d,%d" % (o, g)]
             if q in ("has", "get"):
                 p, sp, n = args
@@ -230,24 +468,104 @@ def record_session(rnd, work, given=None):
     """two random packages with the same file names open at once; log what the real code answers"""
     from props.c07 import random_package, cname
     if given is None:
-        c1, model = random_package(rnd)
+        # (a quarter of the sessions: 30+ members, blobs of 8..64 KiB -- compressed parts beyond the read-ahead)
+        c1, model = random_package(rnd, stress=1 if rnd.random() < 0.25 else None)
         concs = {"1,0": c1, "2,0": sibling(rnd, c1, model)}
         mems, hows, styles = {}, {}, {}
         same = rnd.random() < 0.5                   # same member names in both packages (same compression)
         ext = (rnd.choice(B.EXTS), rnd.choice(B.EXTS))
         for o in (1, 2):
             e = ext if (same or o == 1) else (rnd.choice(B.EXTS), rnd.choice(B.EXTS))
+            hows[o] = pick_how(rnd, 0.5)
+            if hows[o] in HOWS_FLAKY:
+                # reads of an uncompressed part go straight to the caller's file object (a small compressed part
+                # is slurped by the decompressor in one read): more of those where the object can fail
+                e = tuple(x if rnd.random() < 0.6 else "" for x in e)
             m = [B.INFO, cname(B.CTRL_BASE, e[0]), cname(B.DATA_BASE, e[1])]
             if rnd.random() < 0.3:
                 m.append(rnd.choice(["_gpgorigin", "foo", "data.tar.gz.bak"]))
             rnd.shuffle(m)
             mems[o] = m
-            hows[o] = pick_how(rnd, 0.5)
             styles[o] = "dpkg" if rnd.random() < 0.8 or any(len(x) > 15 for x in m) else "gnu"
         present_c = B.CTRL_NAMES
         calls, gens, prev = [], {1: 0, 2: 0}, None
+        flaky = [o for o in (1, 2) if hows[o] in HOWS_FLAKY]
+        hand = None                 # (o, p) of the half-read file, as far as the generator can tell
+
+        def pick_name(p):
+            r3 = rnd.random()
+            own = model if p == "data" else present_c
+            return rnd.choice(own) if own and r3 < 0.8 else rnd.choice(present_c) if r3 < 0.9 else "absent"
+
+        def carry_on(o, p):
+            """then the ordinary history continues: right after a fault, valid calls on the same part"""
+            for _ in range(rnd.choice([1, 2, 2, 3, 4])):
+                if p == "control" and rnd.random() < 0.3:
+                    calls.append([rnd.choice(["scripts", "md5sums"]), o, rnd.choice(MD5_WAYS)])
+                else:
+                    calls.append([rnd.choice(["has", "has", "get"]), o, p, rnd.choice(SPELLINGS), pick_name(p),
+                                  rnd.randrange(N_ACCESS)])
+
+        def early_fault(o):
+            """a fault early in the life of an object: the first membership query of a part, then the
+            file object fails during the second one (another name of the same part)"""
+            if o not in flaky or rnd.random() < 0.25:
+                return
+            p = rnd.choice(PARTS)
+            n1 = pick_name(p)
+            n2 = pick_name(p)
+            if n2 == n1:
+                n2 = pick_name(p)
+            calls.append(["has", o, p, rnd.choice(SPELLINGS), n1, 0])
+            calls.append(["fault", o, "has", rnd.choice([1, 1, 1, 2, 3, 5]), rnd.choice(FAULT_KINDS), p, rnd.choice(SPELLINGS), n2])
+            carry_on(o, p)
+        for o in flaky:
+            early_fault(o)
         for _ in range(rnd.randint(15, 45)):
             r = rnd.random()
+            r2 = rnd.random()
+            if hand is not None and r2 < 0.45:
+                if r2 < 0.2:
+                    calls.append(["ar", hand[0], rnd.choice(AR_NAMED + AR_KINDS), hand[1]])
+                elif r2 < 0.25:
+                    calls.append(["ar", rnd.choice((1, 2)), rnd.choice(AR_KINDS), rnd.choice(PARTS + ["info"])])
+                elif r2 < 0.3:
+                    calls.append(["fault", hand[0], "re", rnd.choice(FAULT_AT), rnd.choice(FAULT_KINDS)])
+                    hand = None
+                else:
+                    calls.append(["re"])
+                    hand = None
+                continue
+            if r2 < 0.10:
+                calls.append(["ar", rnd.choice((1, 2)), rnd.choice(AR_KINDS), rnd.choice(PARTS + ["info"])])
+                continue
+            if hand is None and r2 < 0.22:
+                p = rnd.choice(PARTS)
+                n = (rnd.choice(model) if model and p == "data" and rnd.random() < 0.8 else
+                     rnd.choice(present_c) if rnd.random() < 0.8 else "absent")
+                o = rnd.choice((1, 2))
+                calls.append(["rb", o, p, rnd.choice(SPELLINGS), n, rnd.choice(HEADS)])
+                hand = (o, p)       # (if the file is absent there is no file object: "re" is then skipped)
+                if rnd.random() < 0.4:      # head, a look at the ar member of that very part, (soon) the rest
+                    calls.append(["ar", o, rnd.choice(AR_NAMED), p])
+                    if rnd.random() < 0.5:
+                        calls.append(["re"])
+                        hand = None
+                continue
+            if flaky and r2 < 0.40:
+                o = rnd.choice(flaky)
+                if rnd.random() < 0.3:
+                    calls.append(["fault", o, rnd.choice(["scripts", "md5sums", "debcontrol"]), rnd.choice(FAULT_AT),
+                                  rnd.choice(FAULT_KINDS)])
+                    carry_on(o, "control")
+                else:
+                    p = rnd.choice(PARTS)
+                    n2 = rnd.random()
+                    n = (rnd.choice(model) if model and n2 < 0.55 else rnd.choice(present_c) if n2 < 0.85 else "absent")
+                    calls.append(["fault", o, rnd.choice(["has", "get"]), rnd.choice(FAULT_AT), rnd.choice(FAULT_KINDS),
+                                  p, rnd.choice(SPELLINGS), n])
+                    carry_on(o, p)
+                continue
             if prev is not None and r < 0.3:
                 calls.append(prev[:5] + [rnd.randrange(N_ACCESS)] if prev[0] in ("has", "get") else list(prev))
             elif r < 0.37:
@@ -258,6 +576,9 @@ def record_session(rnd, work, given=None):
                 key = "%d,%d" % (o, gens[o])
                 concs[key] = sibling(rnd, c1, model)
                 calls.append(["reopen", o, key])
+                if hand is not None and hand[0] == o:
+                    hand = None
+                early_fault(o)
             elif r < 0.55:
                 prev = [rnd.choice(["scripts", "md5sums", "debcontrol"]), rnd.choice((1, 2)), rnd.choice(MD5_WAYS)]
                 calls.append(prev)
@@ -287,8 +608,18 @@ def record_session(rnd, work, given=None):
         abstract(concs[k])
     sess = Session(work, mems, hows, styles)
     cur = {1: concs["1,0"], 2: concs["2,0"]}
+    curkey = {1: "1,0", 2: "2,0"}
     objs = [{"mem": mems[o], "pkg": abstract(cur[o])} for o in (1, 2)]
     events = []
+    opened = {1: set(), 2: set()}       # parts a successful query has opened since the object was created
+
+    def reopen_same(o):
+        """after a fault the generator takes to be outside the fault domain (unopened or gz part): the
+        object is opened again on the same content before anything else is asked of it"""
+        st = sess.open(o, cur[o])
+        events.append({"op": "reopen", "o": o, "pkg": abstract(cur[o])})
+        opened[o] = set()
+        return st
     try:
         for o in (1, 2):
             st = sess.open(o, cur[o])
@@ -297,14 +628,63 @@ def record_session(rnd, work, given=None):
         keep = []
         for cl in calls:
             op = cl[0]
+            if op == "fault" and cl[2] != "re":
+                # the query with the caller's file object armed; when the injected fault does not come out the
+                # caller asks again (below) and that answer is the event
+                o, q, k, kind = cl[1:5]
+                args = cl[5:8]
+                p = args[0] if args else "control"
+                exc = obs_faulted(sess.deb[o], k, kind, sess.raw_query(o, q, args, "utf-8", names))
+                if exc:
+                    ev = {"op": "fault", "o": o, "q": q, "exc": exc}
+                    if args:
+                        ev.update({"p": args[0], "sp": args[1], "n": args[2] if args[2] != "absent" else "f0"})
+                    events.append(ev)
+                    if not (p in opened[o] and ext_of(mems[o], p) != "gz") and reopen_same(o) != "ok":
+                        break
+                    continue
+                cl = [q, o] + list(args) + [(k + len(events)) % N_ACCESS] if args else [q, o, "utf-8"]
+                op = q
             if op == "mutate":
                 if keep:
                     mutate_result(keep[0])
                 events.append({"op": "mutate"})
+            elif op == "ar":
+                _, o, kind, w = cl
+                err = obs_ar(sess.deb[o], kind, member_of(mems[o], w))
+                events.append({"op": "ar", "o": o, "kind": kind, "w": w, "err": err})
+            elif op == "rb":
+                _, o, p, sp, n, k = cl
+                if sess.hand is not None:
+                    continue
+                err, found = sess.read_begin(o, p, B.SPELL[sp] + names[n], k)
+                if err == "DebError" and obs_has(sess.part(o, p), B.SPELL[sp] + names[n])[0] == "":
+                    err = ""
+                if not err:
+                    opened[o].add(p)
+                events.append({"op": "readbegin", "o": o, "p": p, "sp": sp, "n": n if n != "absent" else "f0",
+                               "err": err, "found": found})
+                if found:
+                    sess.hand.append(p)
+            elif op == "re" or (op == "fault" and cl[2] == "re"):
+                if sess.hand is None:
+                    continue
+                o, p = sess.hand[0], sess.hand[3]
+                if op == "fault" and o != cl[1]:
+                    continue
+                exc, err, data = sess.read_end((cl[3], cl[4]) if op == "fault" else None)
+                if exc:
+                    events.append({"op": "fault", "o": o, "q": "readend", "exc": exc})
+                    if not (p in opened[o] and ext_of(mems[o], p) != "gz") and reopen_same(o) != "ok":
+                        break
+                else:
+                    events.append({"op": "readend", "o": o, "err": err, "found": data is not None,
+                                   "blob": 0 if data is None else table.get(data, 9999)})
             elif op == "reopen":
                 _, o, key = cl
                 cur[o] = concs[key]
                 st = sess.open(o, cur[o])
+                opened[o] = set()
                 events.append({"op": "reopen", "o": o, "pkg": abstract(cur[o])})
                 if st != "ok":
                     events.append({"op": "has", "o": o, "p": "control", "sp": "plain", "n": "control", "err": st, "found": False})
@@ -317,6 +697,8 @@ def record_session(rnd, work, given=None):
                 if op == "has":
                     err, found = obs_has(part, path)
                     events.append({"op": "has", "o": o, "p": p, "sp": sp, "n": mn, "err": err, "found": bool(found)})
+                    if not err:
+                        opened[o].add(p)
                 else:
                     pb = dict(cur[o].cfiles if p == "control" else cur[o].dfiles).get(names[n])
                     err, data = obs_get(part, path, variant, sess.disturber(o), random.Random(len(events)), plain=names[n],
@@ -325,6 +707,8 @@ def record_session(rnd, work, given=None):
                         err, data = "", None
                     events.append({"op": "get", "o": o, "p": p, "sp": sp, "n": mn, "err": err, "found": data is not None,
                                    "blob": 0 if data is None else table.get(data, 9999)})
+                    if not err:
+                        opened[o].add(p)
             else:
                 _, o, enc = cl
                 deb = sess.deb[o]
@@ -342,6 +726,8 @@ def record_session(rnd, work, given=None):
                     cid = table.get(B.render_control(cur[o].fields), 9998)
                     events.append({"op": op, "o": o, "err": err,
                                    "blob": cid if (not err and fields == dict(cur[o].fields)) else (0 if err else 9999)})
+                if not err:
+                    opened[o].add("control")
     finally:
         sess.close()
     return {"objs": objs, "events": events,
@@ -368,6 +754,15 @@ def corrupt_session(t, how):
         if how == "ctl" and e["op"] == "debcontrol" and e["err"] == "":
             e["blob"] += 5000
             return t
+        if how == "readend" and e["op"] == "readend" and e["found"]:
+            e["blob"] += 5000
+            return t
+        if how == "faultexc" and e["op"] == "fault":
+            e["exc"] = "EXC:RuntimeError"        # something else than the caller's exception came out
+            return t
+        if how == "ar" and e["op"] == "ar" and e["err"] == "":
+            e["err"] = "EXC:KeyError"
+            return t
     return None
 
 
@@ -380,7 +775,7 @@ def validate_sessions(ctx, sessions, java_opts=None, with_controls=True):
     sl = [slim(t) for t in sessions]
     ctl = []
     if with_controls:
-        for how in ("blob", "has", "dict", "ctl"):
+        for how in ("blob", "has", "dict", "ctl", "readend", "faultexc", "ar"):
             n = 0
             for k, t in enumerate(sl):
                 c = corrupt_session(t, how)
